@@ -23,13 +23,14 @@ CliOnly == {"cli"}
 BuildOnly == {"build"}
 
 \* Replay generation: environment steps only after a generated state exists, no forced runs,
-\* events present, no visualisation (those dimensions have their own configs)
+\* with and without events at the start (so that "the project's first emit call" is a history), no visualisation
+\* (that dimension has its own configs)
 NoTrailingEnv == (gen = MaxRuns /\ run.pc = "idle" /\ hist # <<>>) => hist[Len(hist)][1] = "end"
 ReplayConstraint ==
     /\ NoTrailingEnv
     /\ nenv <= gen
     /\ (run.pc # "idle" => ~run.wantForced)
-ReplayInit == Init /\ hasEvents = TRUE /\ viz = FALSE
+ReplayInit == Init /\ viz = FALSE
 ReplaySpec == ReplayInit /\ [][Next]_vars
 
 \* C17: fault plans.  A first run or a run after an output-changing edit is hit by exactly one
